@@ -55,6 +55,9 @@ type Tree struct {
 	ListScript    map[string]string      `json:"list_script"` // "k" -> outcome of the k-th list
 	WatchMode     string                 `json:"watch_mode"`
 	HoldFirstList bool                   `json:"hold_first_list"`
+	// Join (C11 only): instead of one tree, several controllers and a join built
+	// over them - shutdown does not travel sideways between independent trees
+	Join *Join `json:"join,omitempty"`
 	Acts          []TAct                 `json:"acts"`
 	Trigger       *Trigger               `json:"trigger,omitempty"`
 	CloseAtEnd    bool                   `json:"close_at_end"`
@@ -349,6 +352,32 @@ func (t *treeRun) act(a TAct) {
 		if a.Block {
 			n.BlockHandler = make(chan struct{})
 		}
+	case "passerby":
+		// a short-lived plain subscriber on that publisher: it subscribes, reads,
+		// and closes again while the stream goes on - its siblings must not notice
+		parent := t.node(a.Node)
+		if a.Node >= 0 && (parent == nil || !parent.IsPublisher()) {
+			return
+		}
+		pub := h.PublisherOf(parent)
+		detsim.Count("probe:passer-by-subscriber")
+		go func() {
+			sub, err := pub.Subscribe()
+			if err != nil {
+				return
+			}
+			gone := make(chan struct{})
+			go func() {
+				for range sub.Events() {
+				}
+				close(gone)
+			}()
+			for i := a.Ms; i >= 0; i-- {
+				detsim.Yield("passerby")
+			}
+			sub.Close()
+			<-gone
+		}()
 	case "refilter":
 		n := t.node(a.Node)
 		if n == nil || !n.Filtered() {
@@ -910,10 +939,29 @@ func treeFamily(gen func(GenCtx) interface{}) *Family {
 	return &Family{
 		Gen:      gen,
 		New:      func() interface{} { return &Tree{} },
-		Run:      runTree,
-		Sim:      func(sc interface{}) SimCfg { return sc.(*Tree).Sim },
-		Describe: describeTree,
+		Run: func(sci interface{}) {
+			if j := sci.(*Tree).Join; j != nil {
+				runJoin(j)
+				return
+			}
+			runTree(sci)
+		},
+		Sim: func(sc interface{}) SimCfg {
+			if j := sc.(*Tree).Join; j != nil {
+				return j.Sim
+			}
+			return sc.(*Tree).Sim
+		},
+		Describe: func(sci interface{}) string {
+			if j := sci.(*Tree).Join; j != nil {
+				return "join: " + describeJoin(j)
+			}
+			return describeTree(sci)
+		},
 		Nontrivial: func(sci interface{}, res *detsim.Result) bool {
+			if sci.(*Tree).Join != nil {
+				return res.Contended > 10
+			}
 			return len(sci.(*Tree).Acts) > 1 && res.Contended > 10
 		},
 	}
